@@ -247,7 +247,7 @@ fn put_nonleaf(v: &mut Vec<u8>, big: bool, c1: u32, s: u32, c2: u32, e: u32, chi
 
 // @harness c05_search_2level_first_leaf
 // @fs 16384
-// @props C05 C10 C04 C03
+// @props C05 C03
 // @tier quick
 // @kind core
 // @timeout 2400
@@ -270,7 +270,7 @@ fn c05_search_2level_first_leaf() {
 
 // @harness c05_search_2level_second_leaf
 // @fs 16384
-// @props C05 C10 C04
+// @props C05
 // @tier quick
 // @kind core
 // @timeout 2400
@@ -292,7 +292,7 @@ fn c05_search_2level_second_leaf() {
 
 // @harness c05_search_2level_both_leaves
 // @fs 16384
-// @props C05 C10 C04
+// @props C05 C04
 // @tier quick
 // @kind core
 // @timeout 2400
